@@ -162,11 +162,16 @@ func walkDir(ctx context.Context, queue chan<- string, files *fileInfos) (change
 		}
 
 		if entry.IsDir() {
-			if strings.HasPrefix(entryName, ".") || strings.HasPrefix(entryName, "_") {
+			// the directory given to --path is always walked; below it a directory is skipped by its own name
+			if entryName == generateOptions.path {
+				return nil
+			}
+			dirName := entry.Name()
+			if strings.HasPrefix(dirName, ".") || strings.HasPrefix(dirName, "_") {
 				return filepath.SkipDir
 			}
 			for _, skipDir := range generateOptions.skipDirs {
-				if skipDir == entryName {
+				if skipDir == dirName {
 					return filepath.SkipDir
 				}
 			}
